@@ -38,6 +38,7 @@ def gen(seed):
         name = 'K%d' % j
         req = [k for k in ('K2', 'K3') if int(k[1]) > j and rnd.random() < 0.6]
         m.bkm[name] = {'c': rnd.choice(PRIMES[:8]), 'd': rnd.choice(PRIMES[8:]), 'req': req}
+    m.bkm['K5'] = {'two': True, 'req': []}
     m.dec = {}
     m.svc = {}
     order = []
@@ -56,6 +57,13 @@ def gen(seed):
             terms.append(('svc', s, [rnd.choice(PRIMES) for _ in sv['params']]))
         if d['kind'] == 'inv' and not d['bkms']:
             d['kind'] = 'lit'
+        if k in (2, 6) and rnd.random() < 0.8:
+            # a boxed invocation of the two-parameter knowledge model K5, whose parameters are NAMED like two inputs: each binding formula is
+            # evaluated over the decision's own context, so `In A` in the second formula is the input, not the first parameter
+            d['kind'] = 'inv2'
+            d['inputs'] = ['In A', 'In B']
+            d['bkms'] = ['K5']
+            d['w'] = [rnd.choice(PRIMES) for _ in range(4)]
         d['terms'] = terms
         m.dec[name] = d
         order.append(name)
@@ -119,6 +127,10 @@ def xml(m):
     for i in INPUTS:
         out.append('  <inputData name="%s" id="%s"><variable name="%s" typeRef="number"/></inputData>' % (i, ident(i), i))
     for (n, b) in m.bkm.items():
+        if b.get('two'):
+            out.append('  <businessKnowledgeModel name="K5" id="_K5"><variable name="K5"/><encapsulatedLogic><formalParameter name="In A" typeRef="number"/><formalParameter name="In B" typeRef="number"/>'
+                       '<literalExpression><text>In A * 3 + In B * 5</text></literalExpression></encapsulatedLogic></businessKnowledgeModel>')
+            continue
         reqs = ''.join('<knowledgeRequirement><requiredKnowledge href="#%s"/></knowledgeRequirement>' % ident(r) for r in b['req'] + ([b['svc']] if b.get('svc') else []))
         body = 'x * %d + %d' % (b['c'], b['d']) + ''.join(' + %s(x)' % r for r in b['req'])
         if b.get('svc'):
@@ -141,6 +153,11 @@ def xml(m):
                     names.append(en)
                     ents.append('<contextEntry><variable name="%s"/><literalExpression><text>%s</text></literalExpression></contextEntry>' % (en, expr_text(m, {'terms': [t]})))
                 logic = '<context>%s<contextEntry><literalExpression><text>%s</text></literalExpression></contextEntry></context>' % (''.join(ents), ' + '.join(names))
+            elif d['kind'] == 'inv2':
+                w = d['w']
+                logic = ('<invocation><literalExpression><text>K5</text></literalExpression>'
+                         '<binding><parameter name="In A"/><literalExpression><text>In A * %d + %d</text></literalExpression></binding>'
+                         '<binding><parameter name="In B"/><literalExpression><text>In A * %d + In B * %d</text></literalExpression></binding></invocation>' % (w[0], w[1], w[2], w[3]))
             else:
                 # boxed invocation of the first knowledge model, the other terms in the binding expression
                 t0 = [t for t in d['terms'] if t[0] == 'bkm'][0]
@@ -187,6 +204,9 @@ def ev_dec(m, n, inp):
         env[i] = inp[i]
     for r in d['decs']:
         env[r] = inp[r] if r in inp else ev_dec(m, r, inp)   # a decision service binds its input decisions to the supplied values
+    if d['kind'] == 'inv2':
+        w = d['w']
+        return (env['In A'] * w[0] + w[1]) * 3 + (env['In A'] * w[2] + env['In B'] * w[3]) * 5
     if d['kind'] == 'inv':
         t0 = [t for t in d['terms'] if t[0] == 'bkm'][0]
         rest = [t for t in d['terms'] if t is not t0]
